@@ -16,6 +16,7 @@ import WV.Model.C16
 import WV.Model.Observer
 import WV.Model.C17
 import WV.Model.C11
+import WV.Model.C18
 
 /-! Line-protocol driver over the executable models.  First stdin line names the model
     (`C12`, …); every following line is one operation; one output line per operation. -/
@@ -46,6 +47,7 @@ def dispatch (which : String) (lines : List String) : List String :=
   | "OBSERVER" => WV.Observer.driver lines
   | "C17" => WV.C17.driver lines
   | "C11" => WV.C11.driver lines
+  | "C18E" => WV.C18.driver lines
   | _ => ["unknown-model " ++ which]
 
 def main : IO Unit := do
